@@ -114,14 +114,19 @@ def expected_client_result(stream: bytes, closed_cleanly: bool, cap: int, decode
                 break
         try:
             codecs.lookup(charset)
-        except LookupError:
+        except (LookupError, ValueError):  # ValueError: a NUL inside the label
             if not rest:
                 return "undecided", "unknown-charset-with-empty-body"
             return "error", "unknown-charset"
         try:
-            return "response", (status, meta, rest.decode(charset))
+            text_body = rest.decode(charset)
         except UnicodeDecodeError:
             return "error", "undecodable-body"
         except Exception:
-            return "undecided", "codec-misbehaves"
+            # a label that is no text encoding (rot13, base64), 'undefined', idna/punycode on bytes they reject:
+            # no body can be produced, so only an error naming the problem is faithful
+            return "error", "undecodable-body"
+        if not isinstance(text_body, str):
+            return "error", "undecodable-body"
+        return "response", (status, meta, text_body)
     return "response", (status, meta, rest)
